@@ -95,7 +95,7 @@ func c18r1(c *RC) {
 	if av := c.MustFn(".(*FuncValue).applyValue"); av != nil {
 		check(av, av.Body, 2, av.QName())
 	}
-	c.Floor("typecheck panics in constructors", n, 35)
+	c.Floor("typecheck panics in constructors", n, 20)
 }
 
 // schema checks: callee -> short name
@@ -575,7 +575,7 @@ func c18r5(c *RC) {
 				fmt.Sprintf("%s.Out(%d) is evaluated on a path that has not established %s.NumOut() > %d: a function or slice with fewer columns makes the constructor die with a reflect index panic instead of a typecheck error attributed to the caller", recv, k, recv, k), trail...)
 		}
 	}
-	c.Floor("constant column inspections in constructors", n, 12)
+	c.Floor("constant column inspections in constructors", n, 8)
 }
 
 // shortCircuitGuards: within cond, the call is only evaluated if an earlier
